@@ -90,6 +90,40 @@ Proof.
   - eapply (positions_from_has _ 0%Z). eapply chain_term_occurs; eassumption.
 Qed.
 
+(* ---- the class F31 under a given shape of the shortcut *)
+Lemma h31_dismax_child chk qs : negb chk && existsb has_f31 qs = false -> forall q', In q' qs -> h31 chk q' = false.
+Proof.
+  intros H q' Hq. unfold h31. destruct chk; [reflexivity|]. cbn [negb andb] in *.
+  destruct (has_f31 q') eqn:E; [|reflexivity].
+  assert (existsb has_f31 qs = true) by (apply existsb_exists; exists q'; split; assumption). congruence.
+Qed.
+
+Lemma h31_bool_child chk (cs : list (occur * query)) : negb chk && existsb (fun c => has_f31 (snd c)) cs = false ->
+  forall c, In c cs -> h31 chk (snd c) = false.
+Proof.
+  intros H c Hc. unfold h31. destruct chk; [reflexivity|]. cbn [negb andb] in *.
+  destruct (has_f31 (snd c)) eqn:E; [|reflexivity].
+  assert (existsb (fun c => has_f31 (snd c)) cs = true) by (apply existsb_exists; exists c; split; assumption). congruence.
+Qed.
+
+Lemma h31_bool chk msm cs : h31 chk (QBool msm cs) = false ->
+  negb chk && f31_node msm (map fst cs) = false /\ forall c, In c cs -> h31 chk (snd c) = false.
+Proof.
+  unfold h31. cbn [has_f31]. intros H. destruct chk; [split; [reflexivity|intros; reflexivity]|].
+  cbn [negb andb] in *. apply orb_false_iff in H. destruct H as [H1 H2]. split; [exact H1|].
+  apply (h31_bool_child false cs H2).
+Qed.
+
+Lemma h31_below_root_weaker chk sc q : h31 chk q = false -> h31_below_root chk sc q = false.
+Proof.
+  unfold h31, h31_below_root. destruct chk; [reflexivity|]. cbn [negb andb].
+  induction q as [l| | |o q IH|q IH|qs|msm cs]; cbn [has_f31 has_f31_below_root]; intros H; try reflexivity.
+  - destruct sc; [exact H|now apply IH].
+  - destruct sc; [exact H|now apply IH].
+  - exact H.
+  - apply orb_false_iff in H. apply H.
+Qed.
+
 Section Seg.
   Variable accepts : N -> N -> bool.
   Variable seg : segment.
@@ -338,17 +372,27 @@ Section Seg.
       unfold bool_sem, bool_sem3. now rewrite !sel_pick.
     Qed.
 
-    Lemma bool_scorer_sound msm sc ces : Forall (fun c => allok (snd c)) ces ->
-      f31_node msm (map fst ces) = false ->
-      dmem (bool_scorer seg msm sc ces) i = bool_sem msm (cvals ces).
+    Lemma bool_scorer_sound chk msm sc ces : Forall (fun c => allok (snd c)) ces ->
+      negb chk && f31_node msm (map fst ces) = false ->
+      dmem (bool_scorer seg chk msm sc ces) i = bool_sem msm (cvals ces).
     Proof.
       intros H HF. destruct ces as [|[o e] [|c2 r]].
       - unfold bool_sem, sel, cvals. cbn. destruct msm as [|[|k]]; reflexivity.
       - cbn [bool_scorer cvals map fst snd]. unfold bool_sem, sel. cbn [map fst f31_node] in HF.
-        destruct o; cbn [is_mustnot is_must is_should filter fst snd map forallb existsb negb andb length] in *.
-        + (* must *) assert (msm = O) as -> by lia. cbn. now rewrite !andb_true_r.
-        + (* should *) rewrite count_true_cons. unfold count_true. cbn [filter length].
-          destruct (dmem e i); [symmetry; apply Nat.leb_le; lia|symmetry; apply Nat.leb_gt; lia].
+        destruct o; cbn [is_mustnot is_must is_should filter fst snd map forallb existsb negb andb orb length] in *.
+        + (* must: matches iff the clause matches and msm = 0 *)
+          destruct (Nat.ltb 0 msm) eqn:Em.
+          * assert (chk = true) as -> by (destruct chk; [reflexivity|discriminate]).
+            cbn [andb dmem]. unfold count_true. cbn [filter length].
+            symmetry. rewrite !andb_true_r. apply andb_false_iff. right. apply Nat.leb_gt. lia.
+          * rewrite andb_false_r. assert (msm = O) as -> by lia. cbn. now rewrite !andb_true_r.
+        + (* should: matches iff the clause matches and msm <= 1 *)
+          rewrite count_true_cons. unfold count_true. cbn [filter length].
+          destruct (Nat.ltb 1 msm) eqn:Em.
+          * assert (chk = true) as -> by (destruct chk; [reflexivity|discriminate]).
+            cbn [andb dmem]. symmetry. apply Nat.leb_gt. destruct (dmem e i); lia.
+          * rewrite andb_false_r.
+            destruct (dmem e i); [symmetry; apply Nat.leb_le; lia|symmetry; apply Nat.leb_gt; lia].
         + cbn. destruct (dmem e i); cbn; [reflexivity|]. destruct msm as [|[|k]]; reflexivity.
       - apply complex_scorer_of_sound. exact H.
     Qed.
@@ -356,17 +400,18 @@ Section Seg.
 
   (* ------------------------------------------------------------------ whole trees *)
   Section Tree.
+    Variable chk : bool.      (* shape of the one-clause shortcut of BooleanWeight::scorer, see Compose.SHAPE *)
     Variable leaf_scorer : bool -> leaf -> dexpr.
     (* contract of the leaf scorers *)
     Hypothesis leaf_sound : forall sc l i, i < md -> dmem (leaf_scorer sc l) i = leaf_matches accepts (doc_at seg i) l.
     Hypothesis leaf_allok : forall sc l, allok (leaf_scorer sc l).
 
-    Lemma bool_scorer_allok msm sc ces : Forall (fun c => allok (snd c)) ces -> allok (bool_scorer seg msm sc ces).
+    Lemma bool_scorer_allok msm sc ces : Forall (fun c => allok (snd c)) ces -> allok (bool_scorer seg chk msm sc ces).
     Proof.
       (* every AllScorer built by complex_scorer uses max_doc *)
       intros H n E. destruct ces as [|[o e] [|c2 r]].
       - discriminate.
-      - cbn [bool_scorer] in E. destruct (is_mustnot o); [discriminate|]. inversion H as [|? ? Ha]. exact (Ha n E).
+      - cbn [bool_scorer] in E. destruct (is_mustnot o || _); [discriminate|]. inversion H as [|? ? Ha]. exact (Ha n E).
       - revert E. unfold bool_scorer, complex_scorer_of, complex_scorer, strip, exclude_wrap, combine.
         set (M := pick is_must _). set (Sh := pick is_should _). set (X := pick is_mustnot _).
         assert (KI : forall l, l <> [] -> Forall (fun e => is_all e = false) l -> intersect_scorers seg l = DAll n -> False).
@@ -408,7 +453,7 @@ Section Seg.
             -- intros E. exfalso. eapply KD; [apply KK|exact E].
     Qed.
 
-    Lemma scorer_model_allok sc q : forall b1, allok (scorer_model seg leaf_scorer sc b1 q).
+    Lemma scorer_model_allok sc q : forall b1, allok (scorer_model seg chk leaf_scorer sc b1 q).
     Proof.
       induction q as [l| | |o q IH|q IH|qs IH|msm cs IH] using query_ind'; intros b1; cbn [scorer_model].
       - apply leaf_allok.
@@ -423,7 +468,7 @@ Section Seg.
     Qed.
 
     Lemma children_allok sc b1 (cs : list (occur * query)) :
-      Forall (fun c => allok (snd c)) (map (fun c => (fst c, scorer_model seg leaf_scorer sc b1 (snd c))) cs).
+      Forall (fun c => allok (snd c)) (map (fun c => (fst c, scorer_model seg chk leaf_scorer sc b1 (snd c))) cs).
     Proof. apply Forall_forall. intros c Hc. apply in_map_iff in Hc. destruct Hc as [c' [<- _]]. apply scorer_model_allok. Qed.
 
     Lemma dismax_as_bool d qs :
@@ -441,72 +486,59 @@ Section Seg.
     Qed.
 
     (* Weight::scorer denotes the prescribed documents: every tree outside F31, every doc id *)
-    Theorem scorer_model_sound sc q : has_f31 q = false ->
-      forall b1 i, i < md -> dmem (scorer_model seg leaf_scorer sc b1 q) i = matches accepts (doc_at seg i) q.
+    Theorem scorer_model_sound sc q : h31 chk q = false ->
+      forall b1 i, i < md -> dmem (scorer_model seg chk leaf_scorer sc b1 q) i = matches accepts (doc_at seg i) q.
     Proof.
       induction q as [l| | |o q IH|q IH|qs IH|msm cs IH] using query_ind'; intros HF b1 i Hi; cbn [scorer_model].
       - apply leaf_sound; exact Hi.
       - destruct b1; cbn [dmem matches]; lia.
       - reflexivity.
-      - cbn [has_f31] in HF. destruct sc; apply IH; assumption.
-      - cbn [has_f31] in *. destruct sc; cbn [dmem]; apply IH; assumption.
+      - destruct sc; apply IH; assumption.
+      - destruct sc; cbn [dmem]; apply IH; assumption.
       - rewrite matches_dismax, <- dismax_as_bool.
         rewrite (bool_scorer_sound i Hi).
         + unfold cvals. rewrite map_map. cbn [fst snd]. f_equal. apply map_ext_in. intros q' Hq. f_equal.
           rewrite Forall_forall in IH. apply IH; [exact Hq| |exact Hi].
-          cbn [has_f31] in HF. destruct (has_f31 q') eqn:E; [|reflexivity].
-          exfalso. assert (existsb has_f31 qs = true) by (apply existsb_exists; exists q'; split; assumption). congruence.
-        + rewrite <- (map_map (fun q' => scorer_model seg leaf_scorer sc b1 q') (fun e => (Should, e))).
+          exact (h31_dismax_child chk qs HF q' Hq).
+        + rewrite <- (map_map (fun q' => scorer_model seg chk leaf_scorer sc b1 q') (fun e => (Should, e))).
           apply Forall_forall. intros c Hc. apply in_map_iff in Hc. destruct Hc as [e [<- He]]. cbn [snd].
           apply in_map_iff in He. destruct He as [q' [<- _]]. apply scorer_model_allok.
-        + rewrite map_map. cbn [fst]. destruct qs as [|x [|y r]]; reflexivity.
-      - rewrite matches_bool. cbn [has_f31] in HF. apply orb_false_iff in HF. destruct HF as [HF1 HF2].
+        + rewrite map_map. cbn [fst]. destruct qs as [|x [|y r]]; cbn; now rewrite ?andb_false_r.
+      - rewrite matches_bool. destruct (h31_bool chk msm cs HF) as [HF1 HF2].
         rewrite (bool_scorer_sound i Hi).
         + unfold cvals. rewrite map_map. cbn [fst snd]. f_equal. apply map_ext_in. intros c Hc. f_equal.
           rewrite Forall_forall in IH. apply IH; [exact Hc| |exact Hi].
-          destruct (has_f31 (snd c)) eqn:E; [|reflexivity].
-          exfalso. assert (existsb (fun c => has_f31 (snd c)) cs = true) by (apply existsb_exists; exists c; split; assumption). congruence.
+          exact (HF2 c Hc).
         + apply children_allok.
         + rewrite map_map. cbn [fst]. exact HF1.
     Qed.
 
     (* for_each / for_each_no_score / for_each_pruning on the root weight: complex_scorer directly,
        sound for EVERY root node (the minimum is honoured even for a single clause) *)
-    Lemma has_f31_below_root_weaker sc q : has_f31 q = false -> has_f31_below_root sc q = false.
-    Proof.
-      induction q as [l| | |o q IH|q IH|qs|msm cs]; cbn [has_f31 has_f31_below_root]; intros H; try reflexivity.
-      - destruct sc; [exact H|now apply IH].
-      - destruct sc; [exact H|now apply IH].
-      - exact H.
-      - apply orb_false_iff in H. apply H.
-    Qed.
-
-    Theorem collect_model_sound sc q : has_f31_below_root sc q = false ->
-      forall i, i < md -> dmem (collect_model seg leaf_scorer sc q) i = matches accepts (doc_at seg i) q.
+    Theorem collect_model_sound sc q : h31_below_root chk sc q = false ->
+      forall i, i < md -> dmem (collect_model seg chk leaf_scorer sc q) i = matches accepts (doc_at seg i) q.
     Proof.
       induction q as [l| | |o q IH|q IH|qs|msm cs]; intros HF i Hi.
-      - apply scorer_model_sound; [reflexivity|exact Hi].
-      - apply scorer_model_sound; [reflexivity|exact Hi].
-      - apply scorer_model_sound; [reflexivity|exact Hi].
-      - cbn [collect_model has_f31_below_root] in *. destruct sc.
+      - apply scorer_model_sound; [apply andb_false_r|exact Hi].
+      - apply scorer_model_sound; [apply andb_false_r|exact Hi].
+      - apply scorer_model_sound; [apply andb_false_r|exact Hi].
+      - cbn [collect_model]. unfold h31_below_root in *. cbn [has_f31_below_root] in HF. destruct sc.
         + apply scorer_model_sound; [exact HF|exact Hi].
         + cbn [matches]. now apply IH.
-      - cbn [collect_model has_f31_below_root] in *. destruct sc.
+      - cbn [collect_model]. unfold h31_below_root in *. cbn [has_f31_below_root] in HF. destruct sc.
         + apply scorer_model_sound; [exact HF|exact Hi].
         + cbn [matches]. now apply IH.
-      - cbn [collect_model has_f31_below_root] in *. rewrite matches_dismax, <- dismax_as_bool.
+      - cbn [collect_model]. rewrite matches_dismax, <- dismax_as_bool.
         rewrite (complex_scorer_of_sound i Hi).
         + unfold cvals. rewrite map_map. cbn [fst snd]. f_equal. apply map_ext_in. intros q' Hq. f_equal.
           apply scorer_model_sound; [|exact Hi].
-          destruct (has_f31 q') eqn:E; [|reflexivity].
-          exfalso. assert (existsb has_f31 qs = true) by (apply existsb_exists; exists q'; split; assumption). congruence.
+          exact (h31_dismax_child chk qs HF q' Hq).
         + apply Forall_forall. intros c Hc. apply in_map_iff in Hc. destruct Hc as [q' [<- _]]. apply scorer_model_allok.
-      - cbn [collect_model has_f31_below_root] in *. rewrite matches_bool.
+      - cbn [collect_model]. rewrite matches_bool.
         rewrite (complex_scorer_of_sound i Hi).
         + unfold cvals. rewrite map_map. cbn [fst snd]. f_equal. apply map_ext_in. intros c Hc. f_equal.
           apply scorer_model_sound; [|exact Hi].
-          destruct (has_f31 (snd c)) eqn:E; [|reflexivity].
-          exfalso. assert (existsb (fun c => has_f31 (snd c)) cs = true) by (apply existsb_exists; exists c; split; assumption). congruence.
+          exact (h31_bool_child chk cs HF c Hc).
         + apply children_allok.
     Qed.
 
@@ -622,8 +654,8 @@ Section Seg.
       rewrite (no_deletes_all_alive ED i Hi). cbn [andb]. now apply H.
   Qed.
 
-  Theorem count_model_agrees sc q : has_f31 q = false ->
-    count_model accepts seg sc q = length (eval accepts seg q).
+  Theorem count_model_agrees chk sc q : h31 chk q = false ->
+    count_model accepts seg chk sc q = length (eval accepts seg q).
   Proof.
     induction q as [l| | |o q IH|q IH|qs IH|msm cs IH] using query_ind'; intros HF.
     - assert (G : scorer_count seg (std_leaf_scorer accepts seg sc l) = length (eval accepts seg (QLeaf l))).
@@ -634,12 +666,12 @@ Section Seg.
       rewrite <- eval_ids_eval, map_length. unfold postings, eval_ids. f_equal.
       apply filter_ext_in. intros i Hi. apply in_seg_ids in Hi.
       now rewrite (no_deletes_all_alive ED i Hi).
-    - apply scorer_count_eq. intros i Hi. apply (scorer_model_sound _ std_leaf_sound std_leaf_allok); assumption.
-    - apply scorer_count_eq. intros i Hi. apply (scorer_model_sound _ std_leaf_sound std_leaf_allok); assumption.
-    - unfold count_model in *. cbn [count_model_with has_f31] in *. rewrite IH by exact HF. reflexivity.
-    - unfold count_model in *. cbn [count_model_with has_f31] in *. rewrite IH by exact HF. reflexivity.
-    - apply scorer_count_eq. intros i Hi. apply (scorer_model_sound _ std_leaf_sound std_leaf_allok); assumption.
-    - apply scorer_count_eq. intros i Hi. apply (scorer_model_sound _ std_leaf_sound std_leaf_allok); assumption.
+    - apply scorer_count_eq. intros i Hi. apply (scorer_model_sound chk _ std_leaf_sound std_leaf_allok); assumption.
+    - apply scorer_count_eq. intros i Hi. apply (scorer_model_sound chk _ std_leaf_sound std_leaf_allok); assumption.
+    - unfold count_model in *. cbn [count_model_with] in *. rewrite IH by exact HF. reflexivity.
+    - unfold count_model in *. cbn [count_model_with] in *. rewrite IH by exact HF. reflexivity.
+    - apply scorer_count_eq. intros i Hi. apply (scorer_model_sound chk _ std_leaf_sound std_leaf_allok); assumption.
+    - apply scorer_count_eq. intros i Hi. apply (scorer_model_sound chk _ std_leaf_sound std_leaf_allok); assumption.
   Qed.
 End Seg.
 
